@@ -581,7 +581,12 @@ def pipeline(ctx, add):
                     ctx.fail('jigg_unreadable', f'{where}: read_jigg_xml failed or returned {None if rs is None else len(rs)} trees for {len(flat)}', data)
                 else:
                     for (name, toks, t), s in zip(rs, flat):
-                        same_jigg(s, t, where + ' ' + name, data)
+                        if same_jigg(s, t, where + ' ' + name, data):
+                            # the token list of a result is the token list of ITS sentence: the words of the leaves, in order
+                            want_w = [dict(l_[2]).get('word') for l_ in snap_leaves(s)]
+                            got_w = [tk.get('word', tk.get('surf')) for tk in toks]
+                            if got_w != want_w:
+                                ctx.fail('jigg_token_list', f'{where} {name}: the result carries the token list {got_w[:12]} ({len(got_w)} tokens) for a derivation over {want_w[:12]} ({len(want_w)} tokens)', data)
                 ctx.count('oracle:jigg_readback_trees', len(flat))
             # ccg2lambda
             for si, sent in enumerate(root.xpath('./document/sentences/sentence')):
